@@ -57,7 +57,7 @@ def _cbmc(frag, unsent, requested):
             % (_EXTEND_WITH, _POW, _POW, _WMR, frag, _WMR, unsent, _WMR, requested, _WMB, _WMB, _DROP_PARAMS)]
 
 
-_TMO = {"quick": 1500, "thorough": 2400}  # per harness; measured 30-640 s each on the shared, loaded machine
+_TMO = {"quick": 1500, "thorough": 2400}  # per harness; measured 4-220 s each (load avg ~13), 3-5x more when the machine is saturated
 _CBMC = _cbmc(1, 3, 4)
 _CBMC_C04 = _cbmc(1, 2, 1)  # one retained change, nothing requested: 1 unsent iteration, requested loop not entered
 
@@ -141,7 +141,8 @@ prop("C01", ready=True, level="other",
          "the missing sequence numbers (numBits, bitmap, ids, count checked on the bytes of the real encoder), stale HEARTBEATs are "
          "ignored, no ACKNACK where RTPS requires none; (4) the same step with a buffered fragment: the ACKNACK set is cut below a "
          "partially received sample and a NACK_FRAG with the 1-based missing fragment numbers and a count > 0 is appended; a fragment "
-         "whose sample stopped being missing (GAP / firstSN moved past it) hides nothing; (5) GAP step - a GAP adjacent to the received "
+         "whose sample stopped being missing (firstSN moved past it; GAPped: thorough tier) hides nothing; (5) GAP step (ranges of any "
+         "length, optional bitmap bit) - a GAP adjacent to the received "
          "prefix extends available_changes_max exactly to the end of the gap, a GAP that starts beyond the next expected change leaves "
          "the earlier changes missing (they are named by the next ACKNACK). Four defects were found by these checks and repaired in /repo "
          "(recorded as fixed, nothing suppressed): a stale buffered fragment emptied every later ACKNACK (fix 1d5179c); NACK_FRAG count "
@@ -153,8 +154,8 @@ prop("C01", ready=True, level="other",
          "of reach) - by code reading the skipped change is announced by the HEARTBEAT sent in the same datagram and requested by the next "
          "ACKNACK, i.e. it heals in one round and is not a violation of the statement."),
      bounds=("safety step and kernel: sequence numbers over full i64 (below i64::MAX-16), payload 0..=3 symbolic bytes, optional 16-byte key "
-             "hash; request steps: sequence numbers <= 1000, <= 4 missing changes, <= 1 buffered fragment of a 2-fragment sample, counts full "
-             "i32; one matched writer per reader"),
+             "hash; request and GAP steps: sequence numbers <= 1000, <= 4 missing changes (<= 2 with a buffered fragment), GAP ranges of any length up "
+             "to sn 3000 with an empty or one-bit bitmap, <= 1 buffered fragment of a 2-fragment sample, counts full i32; one matched writer per reader"),
      outside=("writer side: RtpsStatefulWriter::on_acknack_submessage_received / write_message_reliable (repair step: DATA or GAP for every "
               "requested sn, highest_acked, stale ACKNACK counts) and therefore the composed progress/ranking round HEARTBEAT->ACKNACK->repair"
               "->reader could NOT be decided: measured 590 s symbolic execution then out of memory (12 GB) for ONE retained change with every "
@@ -170,7 +171,7 @@ prop("C01", ready=True, level="other",
                   "HEARTBEAT validity (RTPS 8.3.7.5): firstSN >= 1, lastSN >= firstSN - 1",
                   "support_rtps::glue_heartbeat_proxy / glue_gap_proxy replicate the statements of the private handle_heartbeat_submessage / "
                   "handle_gap_submessage (source guard fails the check when they change)"],
-     cbmc_args=_CBMC, timeout=_TMO, guards=[_glue_guard])
+     cbmc_args=_CBMC, timeout=_TMO, guards=[_glue_guard], mem_gb=16)
 
 prop("C02", ready=True, level="other",
      explanation=(
